@@ -725,61 +725,69 @@ theorem mainLoop_spec : ∀ (n : Nat) (p : P) (ops : List (List UInt8)), p.oof =
               · simp only [hte, Bool.false_eq_true, if_false]
                 exact ho1
 
+omit hnum in
+/-- `skipBOM` reads at most three bytes and puts at most one back -/
+theorem skipBOM_bound (bytes : List UInt8) (tail : Tail) :
+    (skipBOM (P.init bytes tail)).2.oof = false ∧ (skipBOM (P.init bytes tail)).2.mu ≤ bytes.length := by
+  rcases hb : skipBOM (P.init bytes tail) with ⟨e, p⟩
+  simp only
+  have hinit : (P.init bytes tail).oof = false ∧ (P.init bytes tail).mu = bytes.length := by simp [P.init, P.mu]
+  unfold skipBOM at hb
+  rcases h0 : readByte (P.init bytes tail) with ⟨r0, p0⟩
+  have l0 : Le p0 (P.init bytes tail) := by have := readByte_le (P.init bytes tail); rwa [h0] at this
+  rw [h0] at hb
+  cases r0 with
+  | none => simp at hb; rw [← hb.2]; exact ⟨by rw [l0.1]; exact hinit.1, by rw [← hinit.2]; exact l0.2⟩
+  | some b =>
+    simp only at hb
+    by_cases hef : b = 0xEF
+    · have hne : (b != 0xEF) = false := by simp [hef]
+      simp only [hne, Bool.false_eq_true, if_false] at hb
+      rcases h1 : readByte p0 with ⟨r1, p1⟩
+      have l1 : Le p1 p0 := by have := readByte_le p0; rwa [h1] at this
+      rw [h1] at hb
+      cases r1 with
+      | none => simp at hb; rw [← hb.2]; exact ⟨by rw [(l1.trans l0).1]; exact hinit.1, by rw [← hinit.2]; exact (l1.trans l0).2⟩
+      | some b1 =>
+        simp only at hb
+        split at hb
+        · simp at hb; rw [← hb.2]; exact ⟨by rw [(l1.trans l0).1]; exact hinit.1, by rw [← hinit.2]; exact (l1.trans l0).2⟩
+        · rcases h2 : readByte p1 with ⟨r2, p2⟩
+          have l2 : Le p2 p1 := by have := readByte_le p1; rwa [h2] at this
+          rw [h2] at hb
+          have l20 := l2.trans (l1.trans l0)
+          cases r2 with
+          | none => simp at hb; rw [← hb.2]; exact ⟨by rw [l20.1]; exact hinit.1, by rw [← hinit.2]; exact l20.2⟩
+          | some b2 =>
+            simp only at hb
+            split at hb <;> (simp at hb; rw [← hb.2]; exact ⟨by rw [l20.1]; exact hinit.1, by rw [← hinit.2]; exact l20.2⟩)
+    · have hne : (b != 0xEF) = true := by simp [hef]
+      simp only [hne, if_true] at hb
+      simp at hb
+      rw [← hb.2]
+      by_cases hb0 : b = 0
+      · subst hb0
+        have hd := readByte_deck (P.init bytes tail); rw [h0] at hd; simp at hd
+        exact ⟨by simp [putBack_oof]; rw [l0.1]; exact hinit.1, by simp [putBack, P.mu, hd]; have := l0.2; simp [P.mu, hd] at this; rw [← hinit.2]; simpa [P.mu] using this⟩
+      · have := putBack_le_of_read (P.init bytes tail) b hb0 (by rw [h0]); rw [h0] at this
+        exact ⟨by rw [this.1]; exact hinit.1, by rw [← hinit.2]; exact this.2⟩
+
 /-- **`parseExe` returns**: for every byte string and every reader ending the model never runs out of
 fuel with `2·|input| + 8` -/
 theorem parseExe_total (bytes : List UInt8) (tail : Tail) :
     (parseExe cm cfg (sdlFuel bytes) bytes tail).2.oof = false := by
   unfold parseExe
   simp only
+  have hle := skipBOM_bound bytes tail
   rcases hb : skipBOM (P.init bytes tail) with ⟨e, p⟩
-  -- skipBOM reads at most three bytes and puts at most one back
-  have hle : p.oof = false ∧ p.mu ≤ bytes.length := by
-    have hinit : (P.init bytes tail).oof = false ∧ (P.init bytes tail).mu = bytes.length := by simp [P.init, P.mu]
-    unfold skipBOM at hb
-    rcases h0 : readByte (P.init bytes tail) with ⟨r0, p0⟩
-    have l0 : Le p0 (P.init bytes tail) := by have := readByte_le (P.init bytes tail); rwa [h0] at this
-    rw [h0] at hb
-    cases r0 with
-    | none => simp at hb; rw [← hb.2]; exact ⟨by rw [l0.1]; exact hinit.1, by rw [← hinit.2]; exact l0.2⟩
-    | some b =>
-      simp only at hb
-      by_cases hef : b = 0xEF
-      · have hne : (b != 0xEF) = false := by simp [hef]
-        simp only [hne, Bool.false_eq_true, if_false] at hb
-        rcases h1 : readByte p0 with ⟨r1, p1⟩
-        have l1 : Le p1 p0 := by have := readByte_le p0; rwa [h1] at this
-        rw [h1] at hb
-        cases r1 with
-        | none => simp at hb; rw [← hb.2]; exact ⟨by rw [(l1.trans l0).1]; exact hinit.1, by rw [← hinit.2]; exact (l1.trans l0).2⟩
-        | some b1 =>
-          simp only at hb
-          split at hb
-          · simp at hb; rw [← hb.2]; exact ⟨by rw [(l1.trans l0).1]; exact hinit.1, by rw [← hinit.2]; exact (l1.trans l0).2⟩
-          · rcases h2 : readByte p1 with ⟨r2, p2⟩
-            have l2 : Le p2 p1 := by have := readByte_le p1; rwa [h2] at this
-            rw [h2] at hb
-            have l20 := l2.trans (l1.trans l0)
-            cases r2 with
-            | none => simp at hb; rw [← hb.2]; exact ⟨by rw [l20.1]; exact hinit.1, by rw [← hinit.2]; exact l20.2⟩
-            | some b2 =>
-              simp only at hb
-              split at hb <;> (simp at hb; rw [← hb.2]; exact ⟨by rw [l20.1]; exact hinit.1, by rw [← hinit.2]; exact l20.2⟩)
-      · have hne : (b != 0xEF) = true := by simp [hef]
-        simp only [hne, if_true] at hb
-        simp at hb
-        rw [← hb.2]
-        by_cases hb0 : b = 0
-        · subst hb0
-          have hd := readByte_deck (P.init bytes tail); rw [h0] at hd; simp at hd
-          exact ⟨by simp [putBack_oof]; rw [l0.1]; exact hinit.1, by simp [putBack, P.mu, hd]; have := l0.2; simp [P.mu, hd] at this; rw [← hinit.2]; simpa [P.mu] using this⟩
-        · have := putBack_le_of_read (P.init bytes tail) b hb0 (by rw [h0]); rw [h0] at this
-          exact ⟨by rw [this.1]; exact hinit.1, by rw [← hinit.2]; exact this.2⟩
+  rw [hb] at hle
   cases e with
   | some e => exact hle.1
   | none =>
     simp only
     apply mainLoop_spec cm cfg hnum _ p [] hle.1
     have : nu p ≤ p.mu + 1 := by unfold nu; split <;> omega
+    have h2 : p.mu ≤ bytes.length := hle.2
     unfold sdlFuel; omega
 
 end Ggql.ExeCF
